@@ -472,8 +472,12 @@ def replay(unit_name, inp, obligation=""):
             from dclab.features.fl_crosstalk import correct_crosstalk
             rng = np.random.default_rng(2)
             ch = int(unit_name.split("channel ")[1].rstrip("]"))
-            for _ in range(50):
+            for trial in range(80):
                 c = {f"ct{i}{j}": float(rng.uniform(0, 0.6)) for i in "123" for j in "123" if i != j}
+                if trial < 36:
+                    # sparse spill-over: a single non-zero element, each element in turn
+                    keys = sorted(c)
+                    c = {k: (0.3 if k == keys[trial % 6] else 0.0) for k in keys}
                 t = rng.uniform(1, 100, 3)
                 C = np.array([[1 if i == j else c[f"ct{i + 1}{j + 1}"] for j in range(3)] for i in range(3)])
                 fl = t @ C
@@ -483,8 +487,20 @@ def replay(unit_name, inp, obligation=""):
                                                       f"{float(got)}, not {float(t[ch - 1])}"}
             return {"failed": False, "detail": "correction inverts the spill-over on random matrices"}
         if unit_name.startswith("get_inert_ratio_prnc"):
-            from dclab.features.inert_ratio import get_inert_ratio_prnc
+            from dclab.features.inert_ratio import get_inert_ratio_prnc, get_inert_ratio_raw, get_inert_ratio_cvx
             th = np.linspace(0, 2 * np.pi, 40, endpoint=False)
+            # translation invariance for every contour dtype (bounded; floats are not modelled)
+            for dt in (np.float64, np.float32, np.int32):
+                base = np.c_[12 * np.cos(th) + 3 * np.sin(2 * th), 5 * np.sin(th)]
+                vals = []
+                for off in ((30, 20), (1024, 48), (4000, 300)):
+                    cc = np.array(np.round(base * 8) / 8 + np.array(off), dtype=dt) if dt is not np.int32 \
+                        else np.array(np.round(base) + np.array(off), dtype=dt)
+                    vals.append((float(get_inert_ratio_raw(cc)), float(get_inert_ratio_cvx(cc)), float(get_inert_ratio_prnc(cc))))
+                for v in vals[1:]:
+                    if not np.allclose(v, vals[0], rtol=1e-6):
+                        return {"failed": True, "detail": f"inertia ratios of a {np.dtype(dt).name} contour depend on its position: "
+                                                          f"{vals[0]} at (30, 20), {v} further out"}
             for dt in (np.float64, np.int32):
                 cont = [np.array(np.c_[30 + 12 * np.cos(th) + 3 * np.sin(2 * th), 20 + 5 * np.sin(th)], dtype=dt)
                         for _ in range(2)]
@@ -497,13 +513,19 @@ def replay(unit_name, inp, obligation=""):
             from dclab.features.volume import get_volume
             th = np.linspace(0, 2 * np.pi, 720, endpoint=False)
             pix = 0.34
-            for shift in (0.0, 10.0, 70.0, 150.3):
+            refs = {}
+            for orient in (1, -1):
+                refs[orient] = get_volume(np.c_[10 * np.cos(orient * th) + 50, 6 * np.sin(orient * th) + 30], 50 * pix, 30 * pix,
+                                          pix, fix_orientation=True)
+            if not (refs[1] > 0 and refs[-1] > 0 and np.isclose(refs[1], refs[-1], rtol=1e-3)):
+                return {"failed": True, "detail": f"the same ellipse traversed in the two directions gives volumes {float(refs[1])} "
+                                                  f"and {float(refs[-1])}"}
+            for shift in (10.0, 70.0, 150.3):
                 for orient in (1, -1):
                     cx, cy = 10 * np.cos(orient * th), 6 * np.sin(orient * th)
                     cont = np.c_[cx + 50 + shift, cy + 30]
                     v = get_volume(cont, (50 + shift) * pix, 30 * pix, pix, fix_orientation=True)
-                    ref = get_volume(np.c_[10 * np.cos(th) + 50, 6 * np.sin(th) + 30], 50 * pix, 30 * pix, pix,
-                                     fix_orientation=True)
+                    ref = refs[orient]
                     if not np.isclose(v, ref, rtol=1e-9) or v <= 0:
                         return {"failed": True, "detail": f"ellipse shifted by {shift} px along the channel, orientation {orient}: "
                                                           f"volume {float(v)} vs. {float(ref)} for the unshifted contour"}
@@ -514,3 +536,24 @@ def replay(unit_name, inp, obligation=""):
 def bounded_inputs(unit_name, rng):
     for s in range(4):
         yield {"seed": s}
+
+
+def extra_checks(run):
+    """bounded layer that runs on every check: clauses that concern floating-point behaviour or
+    library code and have no contract (translation invariance of the inertia ratios for every
+    contour dtype, volume orientation / translation, brightness on float backgrounds)"""
+    import json as _json
+    from pyvc.run import HERE
+    for unit_name, what in (("get_inert_ratio_prnc[bounded]", "translation invariance and input frame of the inertia ratios "
+                             "(float64 / float32 / int32 contours)"),
+                            ("get_volume[bounded]", "volume: positive for both orientations, translation invariant"),
+                            ("get_bright_bc[lists of events, with bg_off]", "brightness statistics on random events")):
+        out = replay(unit_name, {"seed": run.seed})
+        run.extra.setdefault("bounded_standins", []).append(
+            {"function": unit_name.split("[")[0], "tool": "native replay against the definition", "cases": 1, "bound": what})
+        if out.get("failed"):
+            fn = HERE / "replays" / ("C18-bounded-" + unit_name.split("[")[0] + ".json")
+            fn.parent.mkdir(exist_ok=True)
+            fn.write_text(_json.dumps({"property": "C18", "obligation": what, "replay": out}, indent=1))
+            print("  " + out["detail"][:300])
+            run.violations.append(f"VIOLATION property=C18 replay={fn.relative_to(HERE)}")
